@@ -59,7 +59,10 @@ AnnClosure(cl, S) ==
     LET N == S \cup UNION {UNION {Refs(e) : e \in AnnOf(o.ann, Get(o.norm, KeyOf(cl, x), KeyOf(cl, x))).cands} : x \in S}
     IN IF N = S THEN S ELSE AnnClosure(cl, N)
 PendOn(cl, x, oldH) == \E i \in DOMAIN cl.pend : (cl.pend[i].m \in {"subscribe", "get"} /\ (cl.pend[i].rid \in oldH \/ cl.pend[i].rid \in DOMAIN cl.dropped)
-                                                        /\ x \in AnnClosure(cl, {cl.pend[i].rid}))
+                                                        \* reached in the announced state, or in the client's own copy: a
+                                                        \* reference that an event not yet delivered has replaced is still
+                                                        \* held by the gateway's subscription until that event is sent
+                                                        /\ (x \in AnnClosure(cl, {cl.pend[i].rid}) \/ x \in Closure({cl.pend[i].rid}, cl.res)))
                                                    \/ cl.pend[i].m \in {"call", "auth", "new"}
 
 (* after a message: keep only retained resources; open/close holding periods *)
@@ -477,7 +480,14 @@ H_note0(r) ==
                 RemOne(sq, c) == IF \E i \in DOMAIN sq : sq[i] = c
                                  THEN LET i0 == CHOOSE i \in DOMAIN sq : sq[i] = c IN [j \in 1..(Len(sq) - 1) |-> IF j < i0 THEN sq[j] ELSE sq[j + 1]]
                                  ELSE sq
-                dead2 == IF r.kind = "cacheGetErr" /\ "rp" \in DOMAIN r THEN o.deadRp \cup {r.rp} ELSE o.deadRp
+                \* resource objects whose re-fetch answers the gateway drops: the initial get failed, or - an alias whose initial
+                \* answer named another normalised query - the object became a link to the resource of that query (loaded from
+                \* an answer that was published after the reset; the alias itself holds no content to bring up to date)
+                dead2 == IF r.kind = "cacheGetErr" /\ "rp" \in DOMAIN r THEN o.deadRp \cup {r.rp}
+                         ELSE IF r.kind = "cacheLink"
+                              THEN o.deadRp \cup SeqToSet(Get(o.refRp, r.key, <<>>))
+                                            \cup {o.mqpend[k].rp : k \in {j \in DOMAIN o.mqpend : o.mqpend[j].refetch /\ o.mqpend[j].key = r.key}}
+                         ELSE o.deadRp
                 cs2 == CASE r.kind = "cacheAddSub" /\ r.state # 1 -> Put(o.csub, r.key, Append(Get(o.csub, r.key, <<>>), r.c))
                          [] r.kind = "cacheUnsub" /\ r.removed /\ "c" \in DOMAIN r -> Put(o.csub, r.key, RemOne(Get(o.csub, r.key, <<>>), r.c))
                          [] r.kind \in {"cacheDelete", "cacheGetErr"} -> Put(o.csub, r.key, <<>>)
